@@ -99,7 +99,7 @@ Proof.
   { intros P HP. apply (sub_skipn 4) in HP. rewrite Eb in HP. inversion HP; assumption. }
   match goal with |- match (match ?cfg with _ => _ end) with _ => _ end => destruct cfg as [[[[hasIdx hasCrc] hasCache] size]|] end;
     [|exact I].
-  destruct (short (1 + 5 * size) boc1) eqn:Es; [exact I|].
+  destruct (short (1 + 3 * size) boc1) eqn:Es; [exact I|].
   apply short_false_iff in Es.
   destruct boc1 as [|ob boc2]; [cbn [length] in Es; lia|].
   cbn [length] in Es, Hb1.
